@@ -69,6 +69,8 @@ class C01(Prop):
             "class of genuine U+FFFD and its neighbours; every fourth group is a sequence case: 2..5 events over one or two signed "
             "events (the event itself, possibly repeated, alterations after which Verify returns early or with an error, arbitrary "
             "alterations, in any order) verified one after the other in one process, each element judged as a single event is; "
+            "30% of the sequences are then verified again all at the same time, 300 times each by one goroutine per event, and "
+            "an event's verdict is the first that differed from its sequential one, if any did; "
             "every event whose strings are valid UTF-8 is also written as JSON by encoding/json, read back by Event.UnmarshalJSON and "
             "verified again: the decoded copy must be judged as the original is; "
             "before every case the real Verify runs once on a fixed good event so that a case's observation depends on the case alone; thorough adds the exhaustive sweep: every "
@@ -218,20 +220,24 @@ class C01(Prop):
         """A sequence: one element alone (a single-event case), the sequence without one element,
         then the recipes of the elements made smaller one at a time."""
         seq = [{"r": x["r"]} for x in c["seq"]]
+        conc = bool(c.get("conc"))
         cands = []
-        for x in seq:
-            cands.append({"r": x["r"]})
+        if conc:
+            cands.append({"seq": seq})           # the same events one after the other only
+        else:
+            for x in seq:
+                cands.append({"r": x["r"]})
         if len(seq) > 2:
             for i in range(len(seq)):
                 for j in range(i + 1, len(seq)):
-                    cands.append({"seq": [seq[i], seq[j]]})
+                    cands.append({"seq": [seq[i], seq[j]], "conc": conc})
         if len(seq) > 1:
             for i in range(len(seq)):
-                cands.append({"seq": seq[:i] + seq[i + 1:]})
+                cands.append({"seq": seq[:i] + seq[i + 1:], "conc": conc})
         per = max(4, 40 // max(len(seq), 1))
         for i, x in enumerate(seq):
             for y in self.shrink(x)[:per]:
-                cands.append({"seq": seq[:i] + [y] + seq[i + 1:]})
+                cands.append({"seq": seq[:i] + [y] + seq[i + 1:], "conc": conc})
         return cands[:100]
 
     def _flat(self, cases):
